@@ -343,3 +343,20 @@ mutant("C15-M10", "C15", "R15c", "objective reuses one model across evaluations"
 mutant("C15-M11", "C15", "R15c", "get_hard_constraints applies x0 to the caller's instructions", OP, "Optimization.get_hard_constraints", "        instructions = sc.dcp(instructions)\n", "")
 twin("C15-T2", "C15", "parset.copy() bound to a local first", CA, "calibrate", "    args = {\n        \"project\": project,\n        \"parset\": parset.copy(),", "    working = parset.copy()\n    args = {\n        \"project\": project,\n        \"parset\": working,")
 twin("C15-T3", "C15", "restore in a nested try/finally", CA, "calibrate", "    except Exception as e:\n        raise e\n    finally:", "    finally:")
+
+# =============================================================================================== C16
+DA = "atomica/data.py"
+mutant("C16-M5", "C16", "R16d", "writer label 'Unit costs'", PR, "ProgramSet._write_spending", "tdve.ts[\"Unit cost\"] = prog.unit_cost", "tdve.ts[\"Unit costs\"] = prog.unit_cost")
+mutant("C16-M6", "C16", "R16d", "reader header 'baseline'", PR, "ProgramSet._read_effects", "elif idx_to_header[i].lower() == \"baseline value\":", "elif idx_to_header[i].lower() == \"baseline\":")
+mutant("C16-M7", "C16", "R16d", "category string mismatch on one side", PR, "ProgramSet.to_workbook", "self._book.set_properties({\"category\": \"atomica:progbook\"})", "self._book.set_properties({\"category\": \"atomica:programbook\"})")
+mutant("C16-M8", "C16", "R16d", "y_factors key renamed on the writer only", PA, "ParameterSet.y_factors", "            y_factors[(par_name, None)] = sc.mergedicts({\"meta_y_factor\": par.meta_y_factor}, par.y_factor)", "            y_factors[(par_name, None)] = sc.mergedicts({\"meta\": par.meta_y_factor}, par.y_factor)")
+mutant("C16-M9", "C16", "R16a", "Covout.sample without refreshing the cache", PR, "Covout.sample", "            self.imp_interaction = \",\".join(tokens)\n\n        self.update_outcomes()", "            self.imp_interaction = \",\".join(tokens)\n")
+mutant("C16-M10", "C16", "R16d", "spending rows swapped on the writer", PR, "ProgramSet._write_spending", "tdve.ts[\"Saturation\"] = prog.saturation\n            tdve.ts[\"Coverage\"] = prog.coverage", "tdve.ts[\"Saturation\"] = prog.coverage\n            tdve.ts[\"Coverage\"] = prog.saturation")
+mutant("C16-M11", "C16", "R16b", "remove_par uses a (population, parameter) key", PR, "ProgramSet.remove_par", "            if (code_name, pop) in self.covouts:\n                del self.covouts[(code_name, pop)]", "            if (pop, code_name) in self.covouts:\n                del self.covouts[(pop, code_name)]")
+mutant("C16-M12", "C16", "R16e", "unknown calibration entries abort the load", PA, "ParameterSet.get_par", "            raise KeyError(f'Parameter \"{name}\" not found')", "            raise NotFoundError(f'Parameter \"{name}\" not found')")
+mutant("C16-M13", "C16", "R16e", "blank cells overwrite existing y-factors", PA, "ParameterSet.load_calibration", "                if pd.isna(v):\n                    continue\n", "")
+mutant("C16-M14", "C16", "R16d", "effects: uncertainty column written from the baseline", PR, "ProgramSet._write_effects", "sheet.write(current_row, 4, covout.sigma, self._formats[\"not_required\"])", "sheet.write(current_row, 4, covout.baseline, self._formats[\"not_required\"])")
+mutant("C16-M15", "C16", "R16d", "population sheet header renamed on the writer", DA, "ProjectData._write_pops", "sheet.write(current_row, 1, \"Full Name\", self._formats[\"center_bold\"])", "sheet.write(current_row, 1, \"Display Name\", self._formats[\"center_bold\"])")
+mutant("C16-M16", "C16", "R16c", "new handler reading its own failed assignment", PR, "ProgramSet._read_spending", "            prog = self.programs[tdve.name]\n", "            try:\n                prog = self.programs[tdve.name]\n            except KeyError:\n                raise Exception('Unknown program %s' % prog.name)\n")
+twin("C16-T2", "C16", "labels hoisted into shared constants would still be literals at the use sites: reader accepts an extra legacy alias", PR, "ProgramSet._read_spending", "            if \"Capacity\" in tdve.ts:", "            if \"Capacity limit\" in tdve.ts:\n                set_ts(prog, \"capacity_constraint\", tdve.ts[\"Capacity limit\"])\n            elif \"Capacity\" in tdve.ts:")
+twin("C16-T3", "C16", "handler uses the loop key instead of the failed local", PA, "ParameterSet.load_calibration", "                    logger.debug(f\"{par.name} in {pop_name} was not found, ignoring y-factors for this quantity\")\n                else:\n                    logger.debug(f\"{par.name} was not found, ignoring y-factors for this quantity\")", "                    logger.debug(f\"{par_name} in {pop_name} was not found, ignoring y-factors for this quantity\")\n                else:\n                    logger.debug(f\"{par_name} was not found, ignoring y-factors for this quantity\")")
